@@ -1,15 +1,16 @@
 // c14: paths address what was visited.
 // Records:
-//   id, "c14v", selector, root, blocks, observation
-//        the unrestricted WalkAdv of the selector; for every visit the reported path is re-resolved with
-//        traversal.Get, traversal.Focus and one-segment-at-a-time lookups (loading links through the link
-//        system).  observation = visits joined by ',' then "|" + walk error class, each visit
-//        <path>;<reason>;<visited node>;<get>;<focus>;<stepwise>   with get = "ok <node>" | "err <class>",
-//        focus / stepwise = "=" when identical to get (and Focus reports the same path), else their text.
-//   id, "c14p", root, blocks, path, observation
-//        an arbitrary path (existing, partially existing, odd segments): <get>;<focus>;<stepwise>
-//   id, "c14r", segments, observation
-//        datamodel path round trip: the segments of ParsePath(NewPath(segments).String())
+//
+//	id, "c14v", selector, root, blocks, observation
+//	     the unrestricted WalkAdv of the selector; for every visit the reported path is re-resolved with
+//	     traversal.Get, traversal.Focus and one-segment-at-a-time lookups (loading links through the link
+//	     system).  observation = visits joined by ',' then "|" + walk error class, each visit
+//	     <path>;<reason>;<visited node>;<get>;<focus>;<stepwise>   with get = "ok <node>" | "err <class>",
+//	     focus / stepwise = "=" when identical to get (and Focus reports the same path), else their text.
+//	id, "c14p", root, blocks, path, observation
+//	     an arbitrary path (existing, partially existing, odd segments): <get>;<focus>;<stepwise>
+//	id, "c14r", segments, observation
+//	     datamodel path round trip: the segments of ParsePath(NewPath(segments).String())
 package main
 
 import (
@@ -239,7 +240,14 @@ func mustVal(s string) *lib.Val {
 	return v
 }
 
+func witnesses(out *lib.Out) {
+	for i, tc := range lib.TravWitnesses() {
+		runVisits(out, fmt.Sprintf("k%d", i), tc)
+	}
+}
+
 func corpus(out *lib.Out) {
+	witnesses(out)
 	// a block whose root is itself a link: the walk visits the link node, Get follows it further
 	store := lib.NewTravStore()
 	c1, l1 := store.Put(lib.Map(lib.Entry{K: "v", V: lib.Int(7)}))
@@ -249,21 +257,21 @@ func corpus(out *lib.Out) {
 		Root:   lib.Map(lib.Entry{K: "p", V: lib.Link(c2)}, lib.Entry{K: "q", V: lib.Link(c1)}),
 		Sel:    mustVal("m1 k52 m2 k6c m1 k6e6f6e65 m0 k3a3e m1 k7c a2 m1 k2e m0 m1 k61 m1 k3e m1 k40 m0"),
 	}
-	runVisits(out, "k0", tc)
-	runPath(out, "k0.p", tc, []string{"p"})
-	runPath(out, "k0.pv", tc, []string{"p", "v"})
+	runVisits(out, "k10", tc)
+	runPath(out, "k10.p", tc, []string{"p"})
+	runPath(out, "k10.pv", tc, []string{"p", "v"})
 	// fields selecting list elements by odd spellings: the reported path keeps the spelling
 	tc2 := &lib.TravCase{
 		Root: lib.List(lib.Int(10), lib.Int(11), lib.Int(12)),
 		// f{ "01": ., "+1": ., "1": ., "x": . }
 		Sel: mustVal("m1 k66 m1 k663e m4 k3031 m1 k2e m0 k2b31 m1 k2e m0 k31 m1 k2e m0 k78 m1 k2e m0"),
 	}
-	runVisits(out, "k1", tc2)
+	runVisits(out, "k11", tc2)
 	for i, p := range [][]string{{"1"}, {"01"}, {"+1"}, {"-1"}, {"x"}, {""}, {"3"}, {"1", "0"}, {"9223372036854775808"}} {
-		runPath(out, fmt.Sprintf("k1.p%d", i), tc2, p)
+		runPath(out, fmt.Sprintf("k11.p%d", i), tc2, p)
 	}
 	for i, segs := range [][]string{{}, {"a"}, {"a", "b"}, {""}, {"a", ""}, {"a/b"}, {"/"}, {"", ""}, {"é", "0"}, {"a", "", "b"}} {
-		runRoundTrip(out, fmt.Sprintf("k2.r%d", i), segs)
+		runRoundTrip(out, fmt.Sprintf("k12.r%d", i), segs)
 	}
 }
 
@@ -272,6 +280,7 @@ func main() {
 	out := lib.OpenOut(fl.Out)
 	defer out.Close()
 	if fl.Replay != "" {
+		witnesses(out)
 		for _, line := range lib.ReadLines(fl.Replay) {
 			f := strings.Split(line, "\t")
 			switch {
@@ -299,7 +308,7 @@ func main() {
 	if n == 0 {
 		n = 600
 		if fl.Tier == "thorough" {
-			n = 30000
+			n = 50000
 		}
 	}
 	rng := lib.NewRng(fl.Seed)
